@@ -24,6 +24,15 @@ def scenarios(rng, tier):
             begun = 1 if rng.random() < 0.8 else 0
             s.op('band_set 0', r, rng.choice([45, 45, 10000, 180, 4500]), begun)
             s.op('band_update 0'); s.op('band_choose 0')
+    # counters beyond 16 bits (a field narrowed to uint16_t wraps them): the count stays at its maximum, monotone
+    s.start('band_wide'); s.op('mk 0'); s.op('adv 1000')
+    for r in (65535, 65536, 65537, 65536 + 14, 65536 + 15, 131072, 2 ** 24, 2 ** 31, 2 ** 32 - 1):
+        for ni0 in (45, 10000):
+            s.op('band_set 0', r, ni0, 1); s.op('band_update 0'); s.op('band_choose 0')
+    # more Hellos in one block than 16 bits count: the counter must not wrap (then a flood looks like silence)
+    s.start('band_many'); s.op('mk 0'); s.op('adv 1000'); s.op('band_init 0')
+    for i in range(65536 + 20): s.op('band_hello 0')
+    s.op('band_update 0'); s.op('band_choose 0')
     # hello counting up to the GAMMA threshold
     s.start('band_count'); s.op('mk 0'); s.op('band_init 0')
     for i in range(25): s.op('band_hello 0')
@@ -77,9 +86,14 @@ def oracle(name, ib, mb, meta):
                 if hts and hts < now + max(interval, 6):
                     fails.append((i, 'block ended with r=%d (count %d) at %d ms: next Hello scheduled at %d ms, the load formula allows it no sooner than %d ms' % (r, ni, now, hts, now + max(interval, 6))))
         if b.op.startswith(('band_init', 'mk')): heard = 0
-        elif b.op.startswith('band_update'): heard = 0
+        elif b.op.startswith('band_update'):
+            if name.startswith('band_many') and heard >= 15 and b.kv.get('ni') not in (None, str(NMAXd)):
+                fails.append((i, 'block with %d Hellos heard ended with repetition count %s, the formula gives NMAX = %d' % (heard, b.kv.get('ni'), NMAXd)))
+            heard = 0
         elif b.op.startswith('band_hello') and 'begun' in b.kv:
             heard += 1
+            if name.startswith('band_many') and 'r' in b.kv and int(b.kv['r']) != heard and not any('counter of Hellos' in m for _, m in fails):
+                fails.append((i, 'the counter of Hellos heard in this block reads %s after %d Hellos' % (b.kv['r'], heard)))
             if heard >= 10 and b.kv['begun'] != '1':
                 fails.append((i, '%d Hellos heard in one block (GAMMA = 10) and enumeration is still not marked as begun: the count of this block will not enter the repetition count' % heard))
         if b.op.startswith(('tick', 'flow')) and b.kv.get('enum', '').startswith('1') and b.kv.get('bts') == '0' and b.kv.get('hts') not in (None, '0'):
